@@ -367,7 +367,10 @@ impl AsnDefWriter {
                 Self::write_common_constraint_type(
                     scope,
                     constraint_type_name,
-                    field.tag.unwrap_or(Tag::DEFAULT_SEQUENCE_OF),
+                    field.tag.unwrap_or(match ordering {
+                        EncodingOrdering::Keep => Tag::DEFAULT_SEQUENCE_OF,
+                        EncodingOrdering::Sort => Tag::DEFAULT_SET_OF,
+                    }),
                 );
                 Self::write_size_constraint(
                     match ordering {
